@@ -59,7 +59,8 @@ CLAIMS = {
         technique="Lean 4 invariant proof (round trip) over executable byte-level model + differential correspondence + reconstruction oracle"),
     "C15": dict(
         category="proof",
-        text=("PARTIAL. Proved (C15_lr_no_panic, C15_lr_no_panic_any_lexer): the Lean model of LRParser::parse — in which every unwrap / "
+        text=("PARTIAL. Proved (C15_glr_no_panic: no panic site of glr/parser.rs + gss.rs incl. the nested layout parser is reachable on "
+              "tables passing Cert.glr + Cert.glrLayout, executed on every real table) and (C15_lr_no_panic, C15_lr_no_panic_any_lexer): the Lean model of LRParser::parse — in which every unwrap / "
               "index / split_off / expected[0] of lr/parser.rs, lr/builder.rs, error.rs is an explicit panic outcome — never reaches a "
               "panic site, for every input, every recognizer function, whitespace skipping or Layout rule, partial parsing on/off, the "
               "default string lexer and adversarial user lexers that ignore the expected set (unexpected kinds surface as Err), given "
@@ -67,7 +68,8 @@ CLAIMS = {
               "outcome class (ok/err/panic/timeout) of the real parsers under catch_unwind + watchdog vs the model on arbitrary "
               "Unicode (empty, multi-byte, control characters, long) with default and three adversarial lexers; Tie B: certificates "
               "executed on every real table. NOT proved: termination (model takes fuel; hangs are decided by the watchdog; known "
-              "finding F14: terminals matching the empty string) and the GLR half (oracle on the real parser only)."),
+              "findings F14: terminals matching the empty string, F24: cyclic grammars resolved by priorities); GLR with user-supplied "
+              "lexers (oracle on the real parser only)."),
         design_ref="5/C15",
         note=TRUST + "; byte/char-boundary slicing is by construction of the recognizers (they return a prefix &str) and exercised by multi-byte inputs only",
         technique="Lean 4 invariant proof (no panic site reachable) + verified table certificates + differential outcome classes under catch_unwind/watchdog"),
@@ -227,22 +229,25 @@ CLAIMS = {
         technique="Lean 4 proof (valid-prefix property of LR over verified table certificates) + differential correspondence + Earley viable-prefix oracle"),
     "C03": dict(
         category="proof",
-        text=("PARTIAL. Proved (C03_forest_enum, C03_by_index_is_all, C03_iteration_is_all): for EVERY well-formed SPPF shape the "
-              "weighted mixed-radix index decoding of Forest::get_tree / Tree::children / find_tree_root returns the i-th tree of the "
-              "canonical enumeration — each tree of the forest exactly once by index and by iteration — and None from solutions() on. "
-              "Tie A for that part: the real SPPF of every accepted input (runtime hook `verif`) is loaded into the Lean model and "
-              "solutions()/get_tree(i) compared. The graph-structured-stack ENGINE (find_lookaheads incl. Layout rule and lexical "
-              "filters, reducer with the real pending-reduction order, right-nulled reductions and the fold of solutions, shifter, "
-              "accept, error) is an executable Lean model (Model/Glr.lean) run next to the real GlrParser on every input: solutions, "
-              "every tree with spans, the SPPF sharing structure, error position and expected set are diffed (0 breaks). Every RN "
-              "table must pass the verified cover certificate (exactly the canonical actions plus every right-nulled reduction). NOT "
-              "proved (theorems in progress): that the engine puts exactly the derivation trees into the forest (Scott-Johnstone's "
-              "paper proof); decided by an independent derivation counter/enumerator on generated in-scope grammars x all strings up "
-              "to a length bound, incl. lexically ambiguous grammars with a character-level oracle: solutions() = number of derivation "
-              "trees, every tree valid modulo elided nullable tails, no tree twice, tree set = derivation set."),
-        design_ref="5/C03",
-        note=TRUST + "; GSS engine: executable model + correspondence, completeness/no-duplication sampled (not yet a theorem); petgraph is not modelled",
-        technique="Lean 4 proof of forest enumeration over all SPPF shapes + executable GLR engine model in correspondence with the real parser + verified RN table certificate + independent derivation enumerator"),
+        text=("The GLR engine is an executable Lean model (Model/Glr.lean: find_lookaheads incl. Layout rule and lexical filters, FIFO "
+              "reduction queue, find_reduction_paths, right-nulled reductions, the fold of solutions, LIFO shifter, create_forest, "
+              "make_error; every unwrap/index an explicit panic outcome). Proved: C03_engine_sound (table passing the executable "
+              "Cert.glr; ANY recognizers/lexer/layout/partial/fuel: every tree the forest returns is a derivation tree from the start "
+              "symbol modulo elided empty-yield tails, and its leaves are exactly the tokens shifted, in order); "
+              "C03_engine_complete (Cert.glr + Cert.completeRN + token-level lexer hypothesis LexDet: for a sentence with derivation "
+              "tree `full` the parse returns no error and some index returns a tree equal to `full` modulo elision - via the "
+              "Scott-Johnstone reduction-closure lemma proved for THIS implementation's queue order and fold, "
+              "C03_engine_reduction_closure); C03_engine_no_panic_certified; C03_engine_forest_is_erasure / _forest_wf; and for "
+              "every well-formed SPPF C03_forest_enum / _by_index_is_all / _iteration_is_all (each tree exactly once by index and by "
+              "iteration, None from solutions() on). Tie B: Cert.glr, Cert.glrLayout, Cert.completeRN and the RN cover certificate are "
+              "executed on every real table. Tie A: engine model vs real GlrParser on every input (solutions, every tree with spans, "
+              "SPPF sharing, error position and expected set), real SPPF loaded into the enumeration model. PARTIAL: no-duplicates is "
+              "a stated def, not a theorem; LexDet is a hypothesis (lexically ambiguous inputs are inside soundness/no-panic/"
+              "correspondence only); termination; cyclic SPPFs excluded (hasCut). Those parts are decided by the independent "
+              "derivation counter/enumerator (token-level and character-level) on generated grammars x all strings up to a bound."),
+        design_ref="0/C03, notes/Glr.md",
+        note=TRUST + "; petgraph is modelled as arrays with index identity in the same edge order; usize overflow of solutions() not modelled",
+        technique="Lean 4 proof (RNGLR soundness + completeness + no-panic for an executable model of the engine, forest enumeration) + verified table certificates + differential correspondence + independent derivation enumerator"),
     "C05": dict(
         category="proof",
         text=("The cell-level conflict-resolution algorithm (Lean transcription of calculate_reductions and max_prior_for_term, tied to "
